@@ -827,6 +827,10 @@ func (tr *fnTrans) recv(x *ssa.UnOp) {
 	if tr.nonblocking {
 		tr.oblige("recv", fmt.Sprintf("recv.nonblocking#%d", tr.ord("recv")), "false", x.Pos(), nil, "blocking receive in a non-blocking function")
 	}
+	if tr.spec.Flags["ctx_guarded"] != "" {
+		// an API function that promises to honour its context may not park in a bare receive
+		tr.oblige("recv", fmt.Sprintf("recv.ctx_guarded#%d", tr.ord("recv.ctx")), "false", x.Pos(), tr.propsAndSafety(), "blocking receive outside a select with a ctx.Done() case")
+	}
 	recvd := tr.get(tr.cur, "G:recvd", "(Array Ref Int)")
 	if x.CommaOk {
 		okc := Term{tr.c.freshConst(x.Name()+"_ok", "Bool"), "Bool", types.Typ[types.Bool]}
@@ -841,6 +845,19 @@ func (tr *fnTrans) recv(x *ssa.UnOp) {
 	v := tr.recvValue(x.Name()+"_recv", x.X.Type(), "true", ch.S)
 	tr.setVal(x, v)
 	tr.set(tr.cur, "G:recvd", "(Array Ref Int)", app("store", recvd, ch.S, "(+ "+app("select", recvd, ch.S)+" 1)"))
+}
+
+// propsAndSafety: the function's own properties together with its safety properties
+func (tr *fnTrans) propsAndSafety() []string {
+	seen := map[string]bool{}
+	var u []string
+	for _, p := range append(append([]string{}, tr.props...), tr.spec.Safety...) {
+		if !seen[p] {
+			seen[p] = true
+			u = append(u, p)
+		}
+	}
+	return u
 }
 
 func (tr *fnTrans) selectOp(x *ssa.Select) {
@@ -876,7 +893,7 @@ func (tr *fnTrans) selectOp(x *ssa.Select) {
 		if !has {
 			g = "false"
 		}
-		tr.oblige("select", fmt.Sprintf("select.ctx_guarded#%d", n), g, x.Pos(), nil, "blocking select without a ctx.Done() case")
+		tr.oblige("select", fmt.Sprintf("select.ctx_guarded#%d", n), g, x.Pos(), tr.propsAndSafety(), "blocking select without a ctx.Done() case")
 	}
 	okc := Term{tr.c.freshConst(x.Name()+"_recvok", "Bool"), "Bool", types.Typ[types.Bool]}
 	res := []Term{idx, okc}
